@@ -42,11 +42,13 @@ pub struct Dfs {
     pub bound: u32,
     /// some alternative was cut by the bound
     pub pruned: bool,
+    /// re-executions whose decision points did not match the recorded path (reported as `replay-mismatch`)
+    pub diverged: u64,
 }
 
 impl Dfs {
     pub fn new(bound: u32) -> Self {
-        Dfs { stack: vec![], pos: 0, bound, pruned: false }
+        Dfs { stack: vec![], pos: 0, bound, pruned: false, diverged: 0 }
     }
     /// move to the next unexplored path; false = search space exhausted
     pub fn backtrack(&mut self) -> bool {
@@ -198,6 +200,8 @@ impl Run {
                 } else if d.pos < d.stack.len() {
                     let ch = &d.stack[d.pos];
                     if ch.opts != opts {
+                        // the re-execution does not follow the recorded path: the run is reported (`replay-mismatch`)
+                        d.diverged += 1;
                         self.abort = Some("replay-mismatch");
                         return None;
                     }
